@@ -165,6 +165,11 @@ def sc_energy(V, P, cfg, chk=None):
     eps_nv = np.asarray(m_nv.sig_out[0].state)
     lam, mu = lame(E, nu, M.dim, plane)
     dim = M.dim
+    nrows = dim + len(voigt_pairs(dim))
+    shapes_ok = all(tuple(np.shape(a)) == (nrows, M.nel) for a in (eps, sig, eps_nv))
+    chk.true("energy-shapes", shapes_ok, "energy-identity")
+    if not shapes_ok:
+        return dict(uKu=uKu)
     en_mod, en_nv = 0, 0
     for e in range(M.nel):
         en_mod = en_mod + x[e] * vol * dot(sig[:, e], eps[:, e])
@@ -280,6 +285,8 @@ def sc_thermal(V, P, cfg, chk=None):
     f = np.asarray(m.sig_out[0].state)
     n = dim * M.nnodes
     chk.true("thermal-shape", tuple(f.shape) == (n,), "thermal-equilibrium-force")
+    if tuple(f.shape) != (n,):
+        return dict(f=f)
     coords = M.coords(siz)
     for d in range(dim):
         chk.eq("thermal-force[%s]" % "xyz"[d], tot(f[q * dim + d] for q in range(M.nnodes)), 0, "thermal-equilibrium-force")
